@@ -109,7 +109,15 @@ func runSolver(ctx context.Context, sp solverSpec, file string, timeoutS int) (s
 	_ = cmd.Run()
 	el := time.Since(t0)
 	text := out.String()
-	first := strings.TrimSpace(strings.SplitN(text, "\n", 2)[0])
+	first := ""
+	for _, ln := range strings.Split(text, "\n") {
+		ln = strings.TrimSpace(ln)
+		if ln == "" || strings.HasPrefix(ln, "WARNING") || strings.HasPrefix(ln, "(warning") {
+			continue // solver warnings precede the verdict
+		}
+		first = ln
+		break
+	}
 	switch first {
 	case "unsat", "sat", "unknown":
 		return first, text, el
